@@ -175,6 +175,9 @@ func (l *linkedBuffer) WriteBytes(data []byte) (n int, err error) {
 // 2. if the next slice can contain the size, then reserve and return it
 // 3. alloc a new slice which can contain the size
 func (l *linkedBuffer) Reserve(size int) ([]byte, error) {
+	if size <= 0 {
+		return nil, nil
+	}
 	// 1. use current slice
 	if l.sliceList.writeSlice == nil {
 		l.alloc(uint32(size))
